@@ -19,6 +19,8 @@ var extraClauses = map[string][]string{
 	"C13": {"fired-with-drain: isLoginEventFired is set to true once, in the critical section that drains the queued login plugin messages", "lock-released for loginInboundConn"},
 	"C14": {"queue-reconciled: SetState and SetOutboundState call ensurePlayPacketQueue(new.State) unconditionally under c.mu", "lock-released for package netmc"},
 	"C15": {"full-reader (shared with C01): the decoder's reader is always the fullReader wrapper"},
+	"C17": {"exclusion-alive: no instruction that may store nil into connInFlight / connectedServer_ (directly or through a callee, nil arguments propagated) flows to a call of nextServerToTry — the 'skip the current / in-flight server' exclusions must still see those servers",
+		"host-clean by string shape: the value ClearVirtualHost returns is its parameter cut at NUL and at /// (Split(..)[0], SplitN(..)[0], Cut and helpers around them are one operation)"},
 	"C16": {"lock-released for connectedPlayer / connectionRequest", "server-equality: RegisteredServer values are never compared with == (always RegisteredServerEqual)"},
 	"C18": {"lock-released for serverConnection", "recorded-on-own-connection: recordBackendKeepAlive is handed the handler's own serverConn field"},
 	"C21": {"last-seen-adopted: in the session chat/command continuations the queue's fixed last-seen update is stored into the packet/builder before anything is returned on the paths where it is non-nil", "lock-released for chatQueue"},
